@@ -57,6 +57,7 @@ RECURSIVE CtrOut(_, _, _, _, _, _)
 CtrOut(key, nonce, pos, calls, i, input) ==
   IF i > Len(calls) THEN <<>>
   ELSE IF calls[i][1] = "R" THEN CtrOut(key, calls[i][2], 0, calls, i + 1, input)
+  ELSE IF calls[i][1] = "K" THEN CtrOut(B(calls[i][4]), calls[i][2], 0, calls, i + 1, input)    \* the same stream object, another key
   ELSE LET n == DecToInt(calls[i][2])  off == calls[i][3] IN
        A!Stream(key, nonce, pos, SubSeq(input, off + 1, off + n)) \o CtrOut(key, nonce, pos + n, calls, i + 1, input)
 \* long streams: walk the calls once; every logged window byte that a call produced must be input XOR keystream at the
@@ -74,6 +75,7 @@ RECURSIVE WalkCalls(_, _, _, _, _, _)
 WalkCalls(key, nonce, pos, calls, i, wins) ==
   IF i > Len(calls) THEN TRUE
   ELSE IF calls[i][1] = "R" THEN WalkCalls(key, calls[i][2], 0, calls, i + 1, wins)
+  ELSE IF calls[i][1] = "K" THEN WalkCalls(B(calls[i][4]), calls[i][2], 0, calls, i + 1, wins)
   ELSE LET n == DecToInt(calls[i][2])  off == calls[i][3] IN
        CallOK(key, nonce, pos, off, n, wins) /\ WalkCalls(key, nonce, pos + n, calls, i + 1, wins)
 TCtr == /\ IsEvent("ctr") /\ Keep /\ Ev.tainted = 0
